@@ -1124,6 +1124,8 @@ class CompositeEnvelope:
                 raise ValueError(
                     "Given states have to be members of the composite envelope"
                 )
+            if s.measured:
+                raise ValueError("Given state has already been destroyed")
 
         # Compile the complete list of states
         state_list = list(states)
